@@ -261,15 +261,81 @@ fn run_zoned(zone: &str, secs: i64, digits: usize, local: &mut Local) {
     }
 }
 
+/// Free-running pass (supplementary, NOT exhaustive): zone names are resolved from several OS
+/// threads at once — every thread a different rotation of 24 city names, through
+/// parse_from_rfc3339_with_timezone, make_date_time_with_tz and the Zinc decoder — and every result
+/// must carry the zone that was asked for. (The enumerations below run on 16 threads and rely on
+/// name resolution being independent of what other threads resolve.) Returns the first wrong answer.
+fn free_running_zones(threads: usize, millis: u64) -> (u64, Option<String>) {
+    let cities: Vec<&str> = vec!["New_York", "Kolkata", "London", "Tokyo", "Sydney", "Sao_Paulo", "Los_Angeles", "Paris", "Dubai", "Kathmandu", "Chicago", "Berlin", "Lagos", "Auckland", "Honolulu", "Denver", "Moscow", "Shanghai", "Jakarta", "Lima", "Nairobi", "Riyadh", "Dhaka", "Anchorage"];
+    let total = std::sync::atomic::AtomicU64::new(0);
+    let bad: std::sync::Mutex<Option<String>> = std::sync::Mutex::new(None);
+    let stop = std::sync::atomic::AtomicBool::new(false);
+    let barrier = std::sync::Barrier::new(threads + 1);
+    std::thread::scope(|sc| {
+        for t in 0..threads {
+            let (cities, total, bad, stop, barrier) = (&cities, &total, &bad, &stop, &barrier);
+            sc.spawn(move || {
+                barrier.wait();
+                let mut done = 0u64;
+                let mut k = t * 5;
+                let fixed = chrono::DateTime::parse_from_rfc3339("2021-06-01T12:00:00+00:00").unwrap();
+                'outer: while !stop.load(std::sync::atomic::Ordering::Relaxed) {
+                    for _ in 0..64 {
+                        let city = cities[k % cities.len()];
+                        k += 1 + t;
+                        let answers: [(&str, Result<String, String>); 3] = [
+                            ("parse_from_rfc3339_with_timezone", DateTime::parse_from_rfc3339_with_timezone("2021-06-01T12:00:00Z", city).map(|d| d.timezone_short_name())),
+                            ("make_date_time_with_tz", libhaystack::timezone::make_date_time_with_tz(&fixed, city).map(|d| DateTime::from(d).timezone_short_name())),
+                            ("zinc", libhaystack::encoding::zinc::decode::from_str(&format!("2021-06-01T12:00:00Z {city}")).map_err(|e| e.to_string()).and_then(|v| match v {
+                                Value::DateTime(d) => Ok(d.timezone_short_name()),
+                                other => Err(format!("{other:?}")),
+                            })),
+                        ];
+                        for (how, a) in answers {
+                            done += 1;
+                            if a.as_deref() != Ok(city) {
+                                let mut b = bad.lock().unwrap();
+                                if b.is_none() {
+                                    *b = Some(format!("thread {t} of {threads}: {how} with zone {city:?} gives {a:?}"));
+                                }
+                                stop.store(true, std::sync::atomic::Ordering::Relaxed);
+                                break 'outer;
+                            }
+                        }
+                    }
+                }
+                total.fetch_add(done, std::sync::atomic::Ordering::Relaxed);
+            });
+        }
+        barrier.wait();
+        std::thread::sleep(std::time::Duration::from_millis(millis));
+        stop.store(true, std::sync::atomic::Ordering::Relaxed);
+    });
+    let b = bad.lock().unwrap().clone();
+    (total.load(std::sync::atomic::Ordering::Relaxed), b)
+}
+
 pub fn run(tier: Tier) -> i32 {
     let instants: Vec<i64> = ALL_INSTANTS.iter().copied().filter(|t| (T1980..T2060).contains(t)).collect();
     #[allow(non_snake_case)]
     let INSTANTS: &[i64] = &instants;
     let mut run = Run::new("C06", tier, "exploration");
-    run.rule = "(i) every RFC 3339 offset -12:00..+14:00 in 15-minute steps x 12 instants x 0..9 fraction digits (+ Z / +00:00 / -00:00) through three constructors: rejected or exact instant; (i'') the leap second 23:59:60 UTC of 2015-06-30 and 2016-12-31 spelled at every half-hour offset, and as a value in every zone through both codecs; (i-z) ~1500 zoned texts (Zinc, Hayson, text + zone) whose wall clock lies in or next to the skipped / repeated hour of 18 zones, with the offset before, after, and offsets the zone never has: never a panic; when the offset is the zone's offset at that instant, the instant of the RFC 3339 part (or an error); (i') 27 malformed texts and 14 zone names that name no zone: error or preserved instant, never a panic; (ii) every in-model zone x every offset transition 1980-2060 x {t-3601,t-1,t,t+1,t+3599} + a lattice, through parse_from_rfc3339_with_timezone (UTC and local spelling), the chrono conversions, timezone::make_date_time_with_tz (city and full name, instant given at three offsets), make_date_time, the C API constructor from UTC date + time + zone with its date/time/zone getters, and (iii) both codecs with 0/3/6/9 fraction digits; (v) the 18 zones of the scalar alphabet beyond that range: every offset transition 1900-2100, a yearly lattice to 2200, years 1 / 1000 / 9999, instants just before 1970 (whole-minute offsets only); non-trivial = distinct (zone, instant, digits) / distinct text".into();
+    run.rule = "(0) supplementary free-running pass, NOT exhaustive: 8 (thorough 16) OS threads resolve rotations of 24 city names at once through three entry points for 0.7 s (5 s), every result must carry the zone asked for; (i) every RFC 3339 offset -12:00..+14:00 in 15-minute steps x 12 instants x 0..9 fraction digits (+ Z / +00:00 / -00:00) through three constructors: rejected or exact instant; (i'') the leap second 23:59:60 UTC of 2015-06-30 and 2016-12-31 spelled at every half-hour offset, and as a value in every zone through both codecs; (i-z) ~1500 zoned texts (Zinc, Hayson, text + zone) whose wall clock lies in or next to the skipped / repeated hour of 18 zones, with the offset before, after, and offsets the zone never has: never a panic; when the offset is the zone's offset at that instant, the instant of the RFC 3339 part (or an error); (i') 27 malformed texts and 14 zone names that name no zone: error or preserved instant, never a panic; (ii) every in-model zone x every offset transition 1980-2060 x {t-3601,t-1,t,t+1,t+3599} + a lattice, through parse_from_rfc3339_with_timezone (UTC and local spelling), the chrono conversions, timezone::make_date_time_with_tz (city and full name, instant given at three offsets), make_date_time, the C API constructor from UTC date + time + zone with its date/time/zone getters, and (iii) both codecs with 0/3/6/9 fraction digits; (v) the 18 zones of the scalar alphabet beyond that range: every offset transition 1900-2100, a yearly lattice to 2200, years 1 / 1000 / 9999, instants just before 1970 (whole-minute offsets only); non-trivial = distinct (zone, instant, digits) / distinct text".into();
     run.assume("chrono_tz offsets are the reference for each zone's local offset (trusted base)");
     run.assume("in-model zone = city name (text after the first '/') designates no zone with different rules under exact or region-prefixed resolution");
     crate::engine::quiet_panics();
+
+    // (0) free-running pass first: the enumerations below are spread over 16 threads
+    {
+        let (n, bad) = free_running_zones(tier.pick(8, 16), tier.pick(700, 5000));
+        run.stats.evals += n;
+        run.note("free_running_zone_lookups", json!(n));
+        if let Some(d) = bad {
+            run.stats.fail("free-running:zone-resolution-depends-on-other-threads", json!({"free_running": "zones"}), d);
+            return run.finish(&replay);
+        }
+    }
 
     // (i)
     let mut texts: Vec<String> = vec![];
@@ -625,6 +691,13 @@ fn consistent(text: &str, city: &str) -> bool {
 }
 
 pub fn replay(case: &J) -> Verdict {
+    if case["free_running"] == "zones" {
+        // not a schedule: the pass is repeated, longer
+        return match free_running_zones(16, 3000).1 {
+            Some(_) => Err(("free-running:zone-resolution-depends-on-other-threads".into(), "a zone name resolved while other threads resolve other names gives another zone".into())),
+            None => Ok(()),
+        };
+    }
     if let Some(a) = case["two_timestamps"].as_array() {
         let (z1, t1, z2, t2) = (a[0].as_str().unwrap_or("UTC"), a[1].as_i64().unwrap_or(0), a[2].as_str().unwrap_or("UTC"), a[3].as_i64().unwrap_or(0));
         return two_timestamps(z1, t1, z2, t2).map_err(|(s, d)| (format!("{s}:two-timestamps-in-one-document"), d));
